@@ -565,22 +565,23 @@ Definition new_chain_obj (st' : state) (oid : nat) (s : scope) (path : dpath) (f
     ma_imported ma = false /\ ma_internal ma = (dp_branch path =? internal_branch) /\
     ma_enc ma = (if x_is_private key then Some (Priv (x_skey key)) else None).
 
-(** an object created by keyToManaged-style code for account (s, a): it holds
-    its private key or waits in the unlock queue, and it holds the key whenever
-    it was created unlocked for an account that has a private key *)
+(** an object created for account (s, a): when that account has a private key
+    the object holds its private key, or the manager is locked and the object
+    waits in the unlock queue *)
 Definition fresh_ok (st : state) (s : scope) (a : N) (oid : nat) : Prop :=
   exists ma, nth_error (m_heap (st_mem st)) oid = Some (MKey ma) /\
     ma_imported ma = false /\ ma_scope ma = s /\ dp_iacct (ma_path ma) = a /\
-    (ma_enc ma <> None \/ In (s, oid, dp_branch (ma_path ma), dp_index (ma_path ma)) (m_queue (st_mem st))) /\
-    (m_locked (st_mem st) = false -> forall row, aget sa_dec (d_accts (st_disk st)) (s, a) = Some row ->
-       ar_priv row <> None -> ma_enc ma <> None).
+    (forall row, aget sa_dec (d_accts (st_disk st)) (s, a) = Some row -> ar_priv row <> None ->
+       ma_enc ma <> None \/
+       (m_locked (st_mem st) = true /\
+        In (s, oid, dp_branch (ma_path ma), dp_index (ma_path ma)) (m_queue (st_mem st)))).
 
 Lemma fresh_ok_ext st st' s a oid : ext st st' -> fresh_ok st s a oid -> fresh_ok st' s a oid.
 Proof.
-  intros E (ma & H1 & H2 & H3 & H4 & H5 & H6). exists ma.
-  split; [apply (ext_heap _ _ E); exact H1|]. repeat split; try assumption.
-  - destruct H5 as [H5|H5]; [left; exact H5|right; apply (ext_queue _ _ E); exact H5].
-  - rewrite (ext_locked _ _ E), (ext_accts _ _ E). exact H6.
+  intros E (ma & H1 & H2 & H3 & H4 & H5). exists ma.
+  split; [apply (ext_heap _ _ E); exact H1|]. splits; try assumption.
+  rewrite (ext_locked _ _ E), (ext_accts _ _ E). intros row Hr Hp.
+  destruct (H5 row Hr Hp) as [H|(H & H')]; [left; exact H|right; split; [exact H|apply (ext_queue _ _ E); exact H']].
 Qed.
 
 Section helpers.
@@ -646,11 +647,13 @@ Section helpers.
                     In (s, length (m_heap (st_mem st)), dp_branch path, dp_index path) (m_queue (st_mem st2))) ->
                    fresh_ok st2 s (dp_iacct path) (length (m_heap (st_mem st)))).
     { intros st2 H2 H3 H4 H5. exists (set_internal (dp_branch path =? internal_branch) ma).
-      split; [exact H2|]. simpl. rewrite F1, F2, F7. repeat split; try assumption.
-      - destruct (x_is_private key); [left; discriminate|right; apply H5; reflexivity].
-      - intros Hl row Hrow Hp. rewrite H3 in Hl. rewrite H4 in Hrow.
-        destruct Hai as (row' & R1 & R2 & R3 & R4 & _). rewrite R1 in Hrow. inversion Hrow. subst row'.
-        rewrite (Hpriv Hl); [discriminate|]. rewrite R4. exact Hp. }
+      split; [exact H2|]. simpl. rewrite F1, F2, F7. splits; try assumption; try reflexivity.
+      intros row Hrow Hp. rewrite H3. rewrite H4 in Hrow. simpl. rewrite ?F7, ?F2.
+      destruct Hai as (row' & R1 & R2 & R3 & R4 & _). rewrite R1 in Hrow. inversion Hrow. subst row'.
+      destruct (x_is_private key) eqn:Ek; [left; simpl; discriminate|right].
+      split; [|apply H5; reflexivity].
+      destruct (m_locked (st_mem st)) eqn:El; [reflexivity|].
+      exfalso. assert (Hx : false = true) by (apply Hpriv; [reflexivity|rewrite R4; exact Hp]). discriminate Hx. }
     destruct (x_is_private key) eqn:Hp; simpl.
     - split; [exact I1|]. split; [exact E1|]. repeat split; try assumption; try congruence.
       + apply Hnew. exact Hnth.
@@ -937,6 +940,16 @@ Proof.
 Qed.
 
 Lemma key_to_managed_disk st s sch key path ai : res_disk st (key_to_managed st s sch key path ai).
+Proof.
+  unfold key_to_managed. destruct (mk_maddr _ _ _ _ _); [|reflexivity].
+  destruct (alloc st _) as [st1 oid] eqn:Ea. unfold alloc in Ea. inversion Ea. subst.
+  destruct (x_is_private key); reflexivity.
+Qed.
+
+Lemma key_to_managed_accts st s sch key path ai :
+  match key_to_managed st s sch key path ai with
+  | Ok st' _ | Err st' _ => m_accts (st_mem st') = m_accts (st_mem st)
+  end.
 Proof.
   unfold key_to_managed. destruct (mk_maddr _ _ _ _ _); [|reflexivity].
   destruct (alloc st _) as [st1 oid] eqn:Ea. unfold alloc in Ea. inversion Ea. subst.
@@ -1304,3 +1317,451 @@ Section issue.
           split; [exact Hnth|]. simpl. rewrite F7, F2, X2. split; [destruct (x_is_private bk); reflexivity|reflexivity].
   Qed.
 End issue.
+
+Section issue2.
+  Context (seed : N) (lk : bool).
+
+  (** reading back a chain row of a cached account cannot fail *)
+  Lemma chain_row_to_managed_total st s sch a b i ai :
+    aget sa_dec (m_accts (st_mem st)) (s, a) = Some ai -> ai_wf ai ->
+    is_hardened b = false -> is_hardened i = false ->
+    exists st' oid, chain_row_to_managed st s sch a b i = Ok st' oid.
+  Proof.
+    intros Hc Hwf Hb Hi. unfold chain_row_to_managed, load_acct. rewrite Hc. cbn [bind]. cbv zeta.
+    set (pr := negb (locked st) && is_some (ai_priv ai)).
+    assert (Hd : exists k, derive_key ai b i pr = DOk k).
+    { unfold pr. destruct (ai_priv ai) as [p|] eqn:E.
+      - destruct (negb (locked st)); simpl.
+        + eexists. apply derive_key_priv_ok. exact E.
+        + eexists. apply derive_key_pub_ok; assumption.
+      - rewrite andb_false_r. eexists. apply derive_key_pub_ok; assumption. }
+    destruct Hd as (k & Hd). rewrite Hd.
+    apply key_to_managed_total. eapply mk_maddr_total; [exact Hwf|]. simpl. exact Hd.
+  Qed.
+
+  Context (s : scope) (sch : schema) (a branch : N).
+
+  Definition objs_ok (st : state) (objs : list (nat * N)) : Prop :=
+    Forall (fun p => chain_obj_at st (fst p) s a branch (snd p) /\ is_hardened (snd p) = false) objs.
+
+  Lemma objs_ok_ext st st' objs : ext st st' -> objs_ok st objs -> objs_ok st' objs.
+  Proof.
+    intros E H. unfold objs_ok in *. rewrite Forall_forall in *. intros p Hp.
+    destruct (H p Hp) as (H1 & H2). split; [eapply chain_obj_at_ext; eauto|exact H2].
+  Qed.
+
+  Lemma chain_obj_key st oid idx : chain_obj_at st oid s a branch idx -> exists k, obj_key_of st oid = Some k.
+  Proof. intros (ma & _ & _ & _ & H & _). unfold obj_key_of, heap_get. rewrite H. simpl. eauto. Qed.
+
+  Definition next_key : scope * N * bool := (s, a, branch =? internal_branch).
+
+  (** the stored next index after writing [objs] in order *)
+  Definition next_after (D D' : disk) (objs : list (nat * N)) : Prop :=
+    (forall k, k <> next_key -> aget sab_dec (d_next D') k = aget sab_dec (d_next D) k) /\
+    aget sab_dec (d_next D') next_key =
+      match rev objs with
+      | [] => aget sab_dec (d_next D) next_key
+      | p :: _ => Some (snd p + 1)
+      end.
+
+  Lemma next_after_nil D : next_after D D [].
+  Proof. split; reflexivity. Qed.
+
+  Lemma next_after_cons D D1 D' oid idx rest :
+    d_next D1 = aset sab_dec (d_next D) next_key (idx + 1) -> next_after D1 D' rest ->
+    next_after D D' ((oid, idx) :: rest).
+  Proof.
+    intros H1 (H2 & H3). split.
+    - intros k Hk. rewrite H2 by exact Hk. rewrite H1, aget_aset_neq by exact Hk. reflexivity.
+    - rewrite H3. simpl. destruct (rev rest) as [|p l] eqn:E; simpl.
+      + rewrite H1, aget_aset_eq. reflexivity.
+      + reflexivity.
+  Qed.
+
+  Lemma write_only_post objs : forall st,
+    Inv0 seed lk st -> objs_ok st objs ->
+    let st' := write_only st s a branch objs in
+    Inv0 seed lk st' /\ ext st st' /\ st_mem st' = st_mem st /\ next_after (st_disk st) (st_disk st') objs.
+  Proof.
+    induction objs as [|[oid idx] rest IH]; intros st I Ho; simpl.
+    - splits; [exact I|apply ext_refl|reflexivity|apply next_after_nil].
+    - apply Forall_cons_iff in Ho. destruct Ho as ((H1 & H2) & Hrest). simpl in H1, H2.
+      destruct (chain_obj_key _ _ _ H1) as (k & Hk). rewrite Hk.
+      destruct (put_chained_post seed lk st s k a branch idx oid I H1 Hk H2) as (I1 & E1 & M1).
+      assert (Ho1 : objs_ok (put_chained st s k a branch idx) rest) by (eapply objs_ok_ext; eauto).
+      destruct (IH _ I1 Ho1) as (I2 & E2 & M2 & N2).
+      splits; [exact I2|eapply ext_trans; eauto|congruence|].
+      eapply next_after_cons; [|exact N2]. unf. reflexivity.
+  Qed.
+
+  Lemma write_readback_post objs : forall st ai,
+    Inv0 seed lk st -> m_locked (st_mem st) = lk -> In (s, sch) (m_scopes (st_mem st)) ->
+    aget sa_dec (m_accts (st_mem st)) (s, a) = Some ai -> is_hardened branch = false ->
+    objs_ok st objs ->
+    exists st', write_readback st s sch a branch objs = Ok st' tt /\
+      Inv0 seed lk st' /\ ext st st' /\ new_fresh st st' /\
+      m_accts (st_mem st') = m_accts (st_mem st) /\ next_after (st_disk st) (st_disk st') objs.
+  Proof.
+    induction objs as [|[oid idx] rest IH]; intros st ai I Hl Hs Hc Hb Ho.
+    - exists st. simpl. splits; try reflexivity; [exact I|apply ext_refl|apply new_fresh_refl|apply next_after_nil].
+    - apply Forall_cons_iff in Ho. destruct Ho as ((H1 & H2) & Hrest). simpl in H1, H2.
+      destruct (chain_obj_key _ _ _ H1) as (k & Hk). cbn [write_readback]. rewrite Hk.
+      destruct (put_chained_post seed lk st s k a branch idx oid I H1 Hk H2) as (I1 & E1 & M1).
+      set (st1 := put_chained st s k a branch idx) in *.
+      assert (Hl1 : m_locked (st_mem st1) = lk) by (rewrite M1; exact Hl).
+      assert (Hs1 : In (s, sch) (m_scopes (st_mem st1))) by (rewrite M1; exact Hs).
+      assert (Hc1 : aget sa_dec (m_accts (st_mem st1)) (s, a) = Some ai) by (rewrite M1; exact Hc).
+      assert (Hrow : aget sk_dec (d_addrs (st_disk st1)) (s, k) = Some (RChain a branch idx)).
+      { unfold st1. unf. apply aget_aset_eq. }
+      pose proof (load_and_cache_post seed lk st1 s sch k I1 Hl1 Hs1) as Hpost.
+      pose proof (load_and_cache_disk st1 s sch k) as Hdisk.
+      assert (Hacc : match load_and_cache st1 s sch k with
+                     | Ok st2 _ | Err st2 _ => m_accts (st_mem st2) = m_accts (st_mem st1) end /\
+                     exists st2 o2, load_and_cache st1 s sch k = Ok st2 o2).
+      { unfold load_and_cache. rewrite Hrow. cbn [row_to_managed].
+        pose proof (ai_static_wf _ _ _ _ _ _ (i_disk _ _ _ I1) (i_accts _ _ _ I1 _ _ _ Hc1)) as Hwf.
+        destruct (chain_row_to_managed_total st1 s sch a branch idx ai Hc1 Hwf Hb H2) as (st2 & o2 & Hcr).
+        pose proof (chain_row_to_managed_post seed lk st1 s sch a branch idx I1 Hl1 Hs1) as Hp.
+        rewrite Hcr in *. simpl in Hp. destruct Hp as (I2 & E2 & N2 & C2 & F2 & D2 & A2).
+        cbn [bind]. destruct F2 as (o & O1 & O2). unfold heap_get. rewrite O1.
+        assert (Hm : m_accts (st_mem st2) = m_accts (st_mem st1)).
+        { revert Hcr. unfold chain_row_to_managed, load_acct. rewrite Hc1. cbn [bind]. cbv zeta.
+          destruct (derive_key _ _ _ _) as [kk| |]; try discriminate. intros Hk2.
+          match type of Hk2 with key_to_managed _ _ _ _ ?p _ = _ =>
+            pose proof (key_to_managed_accts st1 s sch kk p ai) as Hq end.
+          rewrite Hk2 in Hq. exact Hq. }
+        split; [unf; exact Hm|eauto]. }
+      destruct Hacc as (Hacc & st2 & o2 & Hlc). rewrite Hlc in *. simpl in Hpost, Hdisk. cbn [bind].
+      destruct Hpost as (I2 & E2 & N2 & _).
+      assert (Ho2 : objs_ok st2 rest) by (apply (objs_ok_ext st st2); [exact (ext_trans _ _ _ E1 E2)|exact Hrest]).
+      assert (Hl2 : m_locked (st_mem st2) = lk) by (rewrite (ext_locked _ _ E2); exact Hl1).
+      assert (Hs2 : In (s, sch) (m_scopes (st_mem st2))) by (rewrite (ext_mscopes _ _ E2); exact Hs1).
+      assert (Hc2 : aget sa_dec (m_accts (st_mem st2)) (s, a) = Some ai) by (rewrite Hacc; exact Hc1).
+      destruct (IH st2 ai I2 Hl2 Hs2 Hc2 Hb Ho2) as (st3 & W3 & I3 & E3 & N3 & A3 & X3).
+      exists st3. splits; try assumption.
+      + eapply ext_trans; [exact E1|]. eapply ext_trans; eauto.
+      + assert (N12 : new_fresh st st2).
+        { intros x Hx. apply N2. rewrite M1. exact Hx. }
+        exact (new_fresh_trans _ _ _ E3 N12 N3).
+      + rewrite A3, Hacc, M1. reflexivity.
+      + eapply next_after_cons; [|rewrite Hdisk in X3; exact X3]. unfold st1. unf. reflexivity.
+  Qed.
+
+  (** caching (and queueing) the new objects *)
+  Lemma cache_objs_post queue objs : forall st,
+    Inv0 seed lk st -> In (s, sch) (m_scopes (st_mem st)) ->
+    Forall (fun p => chain_obj_at st (fst p) s a branch (snd p) /\ field_at st (fst p)) objs ->
+    let st' := cache_objs st s branch queue objs in
+    Inv0 seed lk st' /\ ext st st' /\ st_disk st' = st_disk st /\
+    m_heap (st_mem st') = m_heap (st_mem st) /\ m_accts (st_mem st') = m_accts (st_mem st) /\
+    m_queue (st_mem st') = m_queue (st_mem st) ++
+       (if queue then map (fun p => (s, fst p, branch, snd p)) objs else []).
+  Proof.
+    induction objs as [|[oid idx] rest IH]; intros st I Hs Ho; simpl.
+    - splits; try reflexivity; [exact I|apply ext_refl|destruct queue; rewrite app_nil_r; reflexivity].
+    - apply Forall_cons_iff in Ho. destruct Ho as ((H1 & H2) & Hrest). simpl in H1, H2.
+      destruct H1 as (ma & row & sch' & coin & C1 & C2 & C3 & C4 & C5 & C6 & C7).
+      destruct H2 as (o & O1 & O2). rewrite C1 in O1. inversion O1. subst o.
+      unfold obj_key_of, heap_get. rewrite C1. simpl.
+      destruct (cache_addr_post seed lk st s (obj_akey (MKey ma)) oid (MKey ma) I C1 eq_refl C3 O2) as (I1 & E1).
+      set (st1 := cache_addr st s (obj_akey (MKey ma)) oid) in *.
+      assert (Hh1 : m_heap (st_mem st1) = m_heap (st_mem st)) by (unfold st1; unf; reflexivity).
+      assert (HQ : Inv0 seed lk (if queue then enqueue st1 s oid branch idx else st1) /\
+                   ext st1 (if queue then enqueue st1 s oid branch idx else st1)).
+      { destruct queue; [|split; [exact I1|apply ext_refl]].
+        apply (enqueue_post seed lk st1 s oid branch idx ma I1); try assumption.
+        unfold st1. unf. destruct (In_aget scope_eq_dec _ _ _ Hs) as (v & ->). reflexivity. }
+      destruct HQ as (I2 & E2).
+      set (st2 := if queue then enqueue st1 s oid branch idx else st1) in *.
+      assert (E12 : ext st st2) by (eapply ext_trans; eauto).
+      assert (Hs2 : In (s, sch) (m_scopes (st_mem st2))) by (rewrite (ext_mscopes _ _ E12); exact Hs).
+      assert (Ho2 : Forall (fun p => chain_obj_at st2 (fst p) s a branch (snd p) /\ field_at st2 (fst p)) rest).
+      { rewrite Forall_forall in *. intros p Hp. destruct (Hrest p Hp) as (P1 & (o & P2 & P3)).
+        split; [eapply chain_obj_at_ext; eauto|]. exists o. split; [apply (ext_heap _ _ E12); exact P2|].
+        eapply acct_field_ok_same; [|exact P3]. apply (ext_accts _ _ E12). }
+      destruct (IH st2 I2 Hs2 Ho2) as (I3 & E3 & D3 & H3 & A3 & Q3).
+      splits; try assumption.
+      + eapply ext_trans; eauto.
+      + rewrite D3. unfold st2, st1. destruct queue; unf; reflexivity.
+      + rewrite H3. unfold st2, st1. destruct queue; unf; reflexivity.
+      + rewrite A3. unfold st2, st1. destruct queue; unf; reflexivity.
+      + rewrite Q3. unfold st2, st1. destruct queue; unf; [rewrite <- app_assoc|]; reflexivity.
+  Qed.
+End issue2.
+
+(* ------------------------------------------------- index ranges, final assembly *)
+
+Lemma index_range_length from cnt : length (index_range from cnt) = cnt.
+Proof. unfold index_range. rewrite map_length, seq_length. reflexivity. Qed.
+
+Lemma index_range_In from cnt idx : In idx (index_range from cnt) -> from <= idx < from + N.of_nat cnt.
+Proof.
+  unfold index_range. rewrite in_map_iff. intros (k & <- & Hk). apply in_seq in Hk. lia.
+Qed.
+
+Lemma index_range_S from cnt : index_range from (S cnt) = index_range from cnt ++ [from + N.of_nat cnt].
+Proof. unfold index_range. rewrite seq_S, map_app. reflexivity. Qed.
+
+Lemma index_range_not_hardened from cnt :
+  from + N.of_nat cnt <= hardened_start -> Forall (fun idx => is_hardened idx = false) (index_range from cnt).
+Proof.
+  intros H. rewrite Forall_forall. intros idx Hi. apply index_range_In in Hi.
+  unfold is_hardened. apply N.leb_gt. lia.
+Qed.
+
+Lemma rev_objs_last (objs : list (nat * N)) from cnt :
+  map snd objs = index_range from (S cnt) -> exists p l, rev objs = p :: l /\ snd p = from + N.of_nat cnt.
+Proof.
+  intros H. assert (Hr : map snd (rev objs) = rev (index_range from (S cnt))) by (rewrite map_rev, H; reflexivity).
+  rewrite index_range_S, rev_app_distr in Hr. simpl in Hr.
+  destruct (rev objs) as [|p l]; [discriminate|]. simpl in Hr. inversion Hr. eauto.
+Qed.
+
+Definition HC (st : state) : Prop :=
+  forall oid ma, nth_error (m_heap (st_mem st)) oid = Some (MKey ma) -> ma_imported ma = false ->
+    is_some (aget sa_dec (m_accts (st_mem st)) (ma_scope ma, dp_iacct (ma_path ma))) = true.
+
+Lemma HC_grow st st' : HC st -> ext st st' -> new_fresh st st' -> HC st'.
+Proof.
+  intros H E N oid ma Hn Hi.
+  destruct (Nat.ltb_spec oid (length (m_heap (st_mem st)))) as [Hlt|Hge].
+  - destruct (nth_error (m_heap (st_mem st)) oid) as [o|] eqn:Eo; [|apply nth_error_None in Eo; lia].
+    pose proof (ext_heap _ _ E _ _ Eo) as Eo'. rewrite Hn in Eo'. inversion Eo'. subst o.
+    specialize (H oid ma Eo Hi).
+    destruct (aget sa_dec (m_accts (st_mem st)) _) as [ai|] eqn:Ea; [|discriminate].
+    destruct (ext_cached _ _ E _ _ Ea) as (ai' & ->). reflexivity.
+  - assert (Hr : (length (m_heap (st_mem st)) <= oid < length (m_heap (st_mem st')))%nat).
+    { split; [exact Hge|]. eapply nth_error_Some_lt; eauto. }
+    destruct (N oid Hr ma Hn Hi) as (s & a & (ma' & F1 & F2 & F3 & F4 & _) & C).
+    rewrite Hn in F1. inversion F1. subst ma'. rewrite F3, F4. exact C.
+Qed.
+
+Section next_ext.
+  Context (seed : N) (lk : bool).
+
+  (** the common second half of nextAddresses and extendAddresses: [st1] is the
+      state after loadAccountInfo, [st2] after the objects were made, [st3]
+      after the database writes (and read-backs). *)
+  Lemma issue_finish st st1 st2 st3 s sch a ai bk acct_child branch queue objs cnt ai' :
+    ext st st1 -> new_fresh st st1 ->
+    Inv0 seed lk st1 -> In (s, sch) (m_scopes (st_mem st1)) ->
+    aget sa_dec (m_accts (st_mem st1)) (s, a) = Some ai -> acct_child = child_num (ai_pub ai) ->
+    ext st1 st2 -> length (m_heap (st_mem st2)) = (length (m_heap (st_mem st1)) + cnt)%nat ->
+    map fst objs = seq (length (m_heap (st_mem st1))) cnt ->
+    Forall (fun p => chain_obj_at st2 (fst p) s a branch (snd p) /\
+                     enc_is st2 (fst p) (x_is_private bk) acct_child) objs ->
+    Inv0 seed lk st3 -> ext st2 st3 -> new_fresh st2 st3 ->
+    (ai_enc ai <> None -> x_is_private bk = true \/ (m_locked (st_mem st1) = true /\ queue = true)) ->
+    ai_static (st_disk st3) lk s a ai' ->
+    let st5 := cache_acct (cache_objs st3 s branch queue objs) s a ai' in
+    Inv0 seed lk st5 /\ ext st st5 /\ new_fresh st st5 /\ st_disk st5 = st_disk st3 /\
+    m_accts (st_mem st5) = aset sa_dec (m_accts (st_mem st3)) (s, a) ai'.
+  Proof.
+    intros E01 N01 I1 Hs Hc Hchild E12 L2 G2 P2 I3 E23 N23 Hq Hai' st5.
+    assert (E13 : ext st1 st3) by (eapply ext_trans; eauto).
+    assert (Hs3 : In (s, sch) (m_scopes (st_mem st3))) by (rewrite (ext_mscopes _ _ E13); exact Hs).
+    pose proof (i_accts _ _ _ I1 _ _ _ Hc) as Hai.
+    assert (Hobjs3 : Forall (fun p => chain_obj_at st3 (fst p) s a branch (snd p) /\ field_at st3 (fst p)) objs).
+    { rewrite Forall_forall in *. intros p Hp. destruct (P2 p Hp) as (C & (ma & M1 & M2 & M3)).
+      split; [exact (chain_obj_at_ext _ _ _ _ _ _ _ E23 C)|]. exists (MKey ma). split; [apply (ext_heap _ _ E23); exact M1|].
+      simpl. intros Hi row Hrow.
+      destruct C as (ma' & row' & sch' & coin' & Q1 & Q2 & Q3 & Q4 & _). rewrite M1 in Q1. inversion Q1. subst ma'.
+      rewrite Q3, Q4, (ext_accts _ _ E13) in Hrow.
+      destruct Hai as (row0 & R1 & _ & R3 & _). rewrite R1 in Hrow. inversion Hrow. subst row0.
+      rewrite M3, Hchild, R3. reflexivity. }
+    destruct (cache_objs_post seed lk s sch a branch queue objs st3 I3 Hs3 Hobjs3) as (I4 & E34 & D4 & H4 & A4 & Q4).
+    set (st4 := cache_objs st3 s branch queue objs) in *.
+    assert (Hai4 : ai_static (st_disk st4) lk s a ai') by (rewrite D4; exact Hai').
+    destruct (cache_acct_post seed lk st4 s a ai' I4 Hai4) as (I5 & E45).
+    fold st5 in I5, E45.
+    assert (E35 : ext st3 st5) by (eapply ext_trans; eauto).
+    assert (E15 : ext st1 st5) by (eapply ext_trans; eauto).
+    assert (H5 : m_heap (st_mem st5) = m_heap (st_mem st3)) by (unfold st5; unf; exact H4).
+    assert (Q5 : m_queue (st_mem st5) = m_queue (st_mem st4)) by (unfold st5; unf; reflexivity).
+    splits; [exact I5|eapply ext_trans; eauto| |unfold st5; unf; exact D4|unfold st5; unf; rewrite A4; reflexivity].
+    (* every new object is fresh in the final state *)
+    assert (C5 : is_some (aget sa_dec (m_accts (st_mem st5)) (s, a)) = true).
+    { unfold st5. unf. rewrite aget_aset_eq. reflexivity. }
+    assert (N13 : forall oid, (length (m_heap (st_mem st1)) <= oid < length (m_heap (st_mem st2)))%nat -> fresh st5 oid).
+    { intros oid Ho ma Hn Hi. exists s, a. split; [|exact C5].
+      assert (Hin : In oid (map fst objs)) by (rewrite G2; apply in_seq; lia).
+      apply in_map_iff in Hin. destruct Hin as ([oid' idx] & Hf & Hin). simpl in Hf. subst oid'.
+      rewrite Forall_forall in P2. destruct (P2 _ Hin) as (C & (mb & M1 & M2 & M3)). simpl in C, M1, M2, M3.
+      assert (E25 : ext st2 st5) by (eapply ext_trans; eauto).
+      pose proof (ext_heap _ _ E25 _ _ M1) as M1'. rewrite Hn in M1'. inversion M1'. subst mb.
+      destruct C as (ma' & row' & sch' & coin' & Q1 & Q2 & Q3 & Q4' & Q5' & Q6 & _).
+      rewrite M1 in Q1. inversion Q1. subst ma'.
+      exists ma. splits; try assumption. intros row Hrow Hp.
+      rewrite (ext_accts _ _ E15) in Hrow. destruct Hai as (row0 & R1 & _ & _ & R4 & _).
+      rewrite R1 in Hrow. inversion Hrow. subst row0.
+      destruct Hq as [Hq|(Hq1 & Hq2)]; [rewrite R4; exact Hp| |].
+      - left. rewrite Hq in M2. destruct (ma_enc ma); [discriminate|discriminate].
+      - right. rewrite (ext_locked _ _ E15). split; [exact Hq1|].
+        rewrite Q5, Q4, Hq2. apply in_or_app. right. apply in_map_iff. exists (oid, idx). simpl.
+        rewrite Q5', Q6. split; [reflexivity|exact Hin]. }
+    intros oid Ho.
+    destruct (Nat.ltb_spec oid (length (m_heap (st_mem st1)))) as [H1|H1].
+    - eapply fresh_ext; [exact E15|exact H1|]. apply N01. lia.
+    - destruct (Nat.ltb_spec oid (length (m_heap (st_mem st2)))) as [H2|H2].
+      + apply N13. lia.
+      + assert (Hlt : (oid < length (m_heap (st_mem st3)))%nat) by (rewrite <- H5; lia).
+        eapply fresh_ext; [exact E35|exact Hlt|]. apply N23. lia.
+  Qed.
+End next_ext.
+
+Lemma Forall_Forall2_fst_snd {A B} (P : A -> B -> Prop) (l : list (A * B)) :
+  Forall (fun p => P (fst p) (snd p)) l -> Forall2 P (map fst l) (map snd l).
+Proof. induction 1; simpl; constructor; assumption. Qed.
+
+Lemma field_of_enc_is st oid b c s a br idx row :
+  enc_is st oid b c -> chain_obj_at st oid s a br idx ->
+  aget sa_dec (d_accts (st_disk st)) (s, a) = Some row -> c = child_num (ar_pub row) -> field_at st oid.
+Proof.
+  intros (ma & M1 & M2 & M3) (ma' & row' & sch' & coin' & Q1 & Q2 & Q3 & Q4 & _) Hrow Hc.
+  rewrite M1 in Q1. inversion Q1. subst ma'. exists (MKey ma). split; [exact M1|].
+  simpl. intros _ row0 H0. rewrite Q3, Q4, Hrow in H0. inversion H0. subst row0. congruence.
+Qed.
+
+Lemma field_at_ext st st' oid : ext st st' -> field_at st oid -> field_at st' oid.
+Proof.
+  intros E (o & H1 & H2). exists o. split; [apply (ext_heap _ _ E); exact H1|].
+  eapply acct_field_ok_same; [|exact H2]. apply (ext_accts _ _ E).
+Qed.
+
+Lemma ai_static_set_next D lk s a ai internal n : ai_static D lk s a ai -> ai_static D lk s a (set_next internal n ai).
+Proof. intros (row & H). exists row. destruct internal; simpl; exact H. Qed.
+
+Lemma NextOk_load seed lk st s sch a :
+  Inv0 seed lk st -> m_locked (st_mem st) = lk -> In (s, sch) (m_scopes (st_mem st)) -> NextOk st ->
+  match load_acct st s sch a with Ok st' _ | Err st' _ => NextOk st' end.
+Proof.
+  intros I Hl Hs HN. pose proof (load_acct_post seed lk st s sch a I Hl Hs) as H.
+  destruct (load_acct st s sch a) as [st1 ai|st1 e].
+  - destruct H as (I1 & E1 & C1 & D1 & A1 & K1 & Sm1 & Nx1 & _).
+    intros s' a' ai' Hc. destruct (sa_dec (s', a') (s, a)) as [E|E].
+    + inversion E. subst. rewrite C1 in Hc. inversion Hc. subst ai'. rewrite D1.
+      destruct (aget sa_dec (m_accts (st_mem st)) (s, a)) as [ai0|] eqn:E0.
+      * destruct (Sm1 ai0 eq_refl) as (-> & ->). apply HN. exact E0.
+      * apply Nx1. reflexivity.
+    + rewrite K1 in Hc by exact E. rewrite D1. apply HN. exact Hc.
+  - destruct H as (-> & _). exact HN.
+Qed.
+
+Section next_ext2.
+  Context (seed : N) (lk : bool).
+
+  Lemma next_addresses_post st s sch a n internal :
+    Inv0 seed lk st -> m_locked (st_mem st) = lk -> In (s, sch) (m_scopes (st_mem st)) -> NextOk st ->
+    match next_addresses st s sch a n internal with
+    | Ok st' oids =>
+      Inv0 seed lk st' /\ ext st st' /\ new_fresh st st' /\ NextOk st' /\
+      disk_next (st_disk st') s a internal = disk_next (st_disk st) s a internal + n /\
+      (forall s' a' i', (s', a', i') <> (s, a, internal) ->
+         disk_next (st_disk st') s' a' i' = disk_next (st_disk st) s' a' i') /\
+      Forall2 (fun oid idx => chain_obj_at st' oid s a (if internal then internal_branch else external_branch) idx /\
+                              field_at st' oid)
+              oids (index_range (disk_next (st_disk st) s a internal) (N.to_nat n))
+    | Err st' e => Inv0 seed lk st' /\ ext st st' /\ new_fresh st st' /\ NextOk st' /\ st_disk st' = st_disk st
+    end.
+  Proof.
+    intros I Hl Hs HN. unfold next_addresses.
+    pose proof (load_acct_post' seed lk st s sch a I Hl Hs) as HL.
+    pose proof (NextOk_load seed lk st s sch a I Hl Hs HN) as HN1.
+    pose proof (load_acct_disk st s sch a) as HD.
+    destruct (load_acct st s sch a) as [st1 ai|st1 e]; cbn [bind]; simpl in HL, HD;
+      [|destruct HL as (I1 & E1 & N1); splits; assumption].
+    destruct HL as (I1 & E1 & N1 & C1 & S1 & D1 & A1 & K1 & Sm1 & Nx1).
+    assert (Hl1 : m_locked (st_mem st1) = lk) by (rewrite (ext_locked _ _ E1); exact Hl).
+    assert (Hs1 : In (s, sch) (m_scopes (st_mem st1))) by (rewrite (ext_mscopes _ _ E1); exact Hs).
+    pose proof (ai_static_wf _ _ _ _ _ _ (i_disk _ _ _ I1) S1) as Hwf.
+    assert (Herr : Inv0 seed lk st1 /\ ext st st1 /\ new_fresh st st1 /\ NextOk st1 /\ st_disk st1 = st_disk st)
+      by (splits; assumption).
+    set (watch_only := negb (is_some (ai_enc ai))).
+    set (branch := if internal then internal_branch else external_branch).
+    set (next := if internal then ai_next_int ai else ai_next_ext ai).
+    assert (Hnext : next = disk_next (st_disk st) s a internal).
+    { destruct (HN1 s a ai C1) as (X1 & X2). unfold next. rewrite <- D1. destruct internal; assumption. }
+    destruct ((max_addresses_per_account <? n) || (max_addresses_per_account <? next + n)) eqn:Hmax;
+      [exact Herr|].
+    apply orb_false_iff in Hmax. destruct Hmax as (Hm1 & Hm2). apply N.ltb_ge in Hm1, Hm2.
+    set (use_priv := negb (locked st1) && negb watch_only).
+    destruct (if use_priv then option_map XPriv (ai_priv ai) else Some (XPub (ai_pub ai))) as [ak|] eqn:Hak;
+      [|exact Herr].
+    assert (Hakk : x_skey ak = ai_pub ai /\ x_is_private ak = (use_priv && is_some (ai_priv ai))).
+    { destruct use_priv.
+      - destruct (ai_priv ai) as [p|] eqn:Ep; [|discriminate]. simpl in Hak. inversion Hak. subst ak. simpl.
+        rewrite (Hwf p Ep). split; reflexivity.
+      - inversion Hak. subst ak. split; reflexivity. }
+    destruct Hakk as (Hak1 & Hak2).
+    destruct (x_derive ak branch) as [bk|] eqn:Hbk; [|exact Herr].
+    destruct (x_derive_spec _ _ _ Hbk) as (B1 & B2).
+    destruct (n =? 0) eqn:Hn0; [exact Herr|]. apply N.eqb_neq in Hn0.
+    (* the objects *)
+    assert (Hidx : Forall (fun idx => is_hardened idx = false) (index_range next (N.to_nat n))).
+    { apply index_range_not_hardened. rewrite N2Nat.id. unfold max_addresses_per_account, hardened_start in *. lia. }
+    assert (Hbks : x_skey bk = raw_child (ai_pub ai) branch) by (rewrite B1, Hak1; reflexivity).
+    destruct (make_objs_post seed lk s sch a ai bk (child_num (x_skey ak)) branch (ai_fp ai) internal
+                             (index_range next (N.to_nat n)) st1 I1 Hs1 S1 Hbks eq_refl Hidx)
+      as (st2 & objs & M0 & I2 & E2 & D2 & C2 & A2 & Q2 & S2 & L2 & G2 & P2).
+    rewrite M0. cbn [bind].
+    (* write and read back *)
+    assert (Hbh : is_hardened branch = false) by (unfold branch; destruct internal; reflexivity).
+    assert (Hl2 : m_locked (st_mem st2) = lk) by (rewrite (ext_locked _ _ E2); exact Hl1).
+    assert (Hs2 : In (s, sch) (m_scopes (st_mem st2))) by (rewrite (ext_mscopes _ _ E2); exact Hs1).
+    assert (Hc2 : aget sa_dec (m_accts (st_mem st2)) (s, a) = Some ai) by (rewrite C2; exact C1).
+    assert (Ho2 : objs_ok s a branch st2 objs).
+    { unfold objs_ok. rewrite Forall_forall in *. intros p Hp. destruct (P2 p Hp) as (Q & _). split; [exact Q|].
+      apply Hidx. rewrite <- S2. apply in_map. exact Hp. }
+    destruct (write_readback_post seed lk s sch a branch objs st2 ai I2 Hl2 Hs2 Hc2 Hbh Ho2)
+      as (st3 & W3 & I3 & E3 & N3 & A3 & X3).
+    rewrite W3. cbn [bind].
+    (* commit *)
+    assert (Hlock3 : locked st3 = lk).
+    { unfold locked. rewrite (ext_locked _ _ E3). exact Hl2. }
+    set (ai' := set_next internal (next + n) ai).
+    assert (Hai' : ai_static (st_disk st3) lk s a ai').
+    { apply ai_static_set_next. destruct S1 as (row & R). exists row.
+      rewrite (ext_accts _ _ E3), (ext_accts _ _ E2). exact R. }
+    assert (Hq : ai_enc ai <> None ->
+                 x_is_private bk = true \/ (m_locked (st_mem st1) = true /\ locked st3 && negb watch_only = true)).
+    { intros He. unfold watch_only. destruct (ai_enc ai) as [x|] eqn:Ee; [|contradiction]. simpl.
+      rewrite Hlock3, Hl1. destruct lk eqn:Elk; [right; split; reflexivity|left].
+      rewrite B2, Hak2. unfold use_priv, locked, watch_only. rewrite Hl1, ?Ee. simpl.
+      destruct S1 as (row & _ & _ & _ & R4 & _ & _ & R7). rewrite R7, <- R4, ?Ee. reflexivity. }
+    rewrite index_range_length in L2, G2.
+    destruct (issue_finish seed lk st st1 st2 st3 s sch a ai bk (child_num (x_skey ak)) branch
+                           (locked st3 && negb watch_only) objs (N.to_nat n) ai'
+                           E1 N1 I1 Hs1 C1 (f_equal child_num Hak1) E2 L2 G2 P2 I3 E3 N3 Hq Hai')
+      as (I5 & E5 & N5 & D5 & A5).
+    set (st5 := cache_acct (cache_objs st3 s branch (locked st3 && negb watch_only) objs) s a ai') in *.
+    (* the stored next index *)
+    assert (Hcnt : exists c, N.to_nat n = S c) by (destruct (N.to_nat n) eqn:E; [lia|eauto]).
+    destruct Hcnt as (c & Hc).
+    assert (Hbi : (branch =? internal_branch) = internal) by (unfold branch; destruct internal; reflexivity).
+    assert (Hnx : disk_next (st_disk st5) s a internal = next + n /\
+                  (forall s' a' i', (s', a', i') <> (s, a, internal) ->
+                     disk_next (st_disk st5) s' a' i' = disk_next (st_disk st1) s' a' i')).
+    { rewrite D5. destruct X3 as (X3a & X3b). unfold next_key in *. rewrite Hbi in *. rewrite D2 in *. split.
+      - unfold disk_next at 1. rewrite X3b. rewrite Hc in S2.
+        destruct (rev_objs_last objs next c S2) as (p & l & -> & Hp). rewrite Hp. lia.
+      - intros s' a' i' Hne. unfold disk_next. rewrite X3a by exact Hne. reflexivity. }
+    destruct Hnx as (Hnx1 & Hnx2).
+    splits; try assumption.
+    - (* NextOk *)
+      intros s' a' ai0 H0. rewrite A5, A3, C2 in H0. rewrite aget_aset in H0.
+      destruct (sa_dec (s', a') (s, a)) as [E|E].
+      + inversion E. subst s' a'. inversion H0. subst ai0.
+        destruct (HN1 s a ai C1) as (Y1 & Y2).
+        destruct internal; unfold ai', set_next; simpl.
+        * rewrite Hnx1. split; [|reflexivity]. rewrite Y1. symmetry. apply Hnx2. intros Hx. inversion Hx.
+        * rewrite Hnx1. split; [reflexivity|]. rewrite Y2. symmetry. apply Hnx2. intros Hx. inversion Hx.
+      + destruct (HN1 s' a' ai0 H0) as (Y1 & Y2). rewrite Y1, Y2.
+        split; symmetry; apply Hnx2; intros Hx; inversion Hx; subst; contradiction.
+    - rewrite Hnx1, Hnext. reflexivity.
+    - intros s' a' i' Hne. rewrite Hnx2 by exact Hne. rewrite D1. reflexivity.
+    - rewrite <- Hnext, <- S2. apply Forall_Forall2_fst_snd.
+      assert (E25 : ext st2 st5) by (eapply ext_trans; [exact E3|]; unfold st5; eapply ext_trans;
+        [apply (cache_objs_post seed lk s sch a branch _ objs st3 I3)|apply cache_acct_post]; fail).
+      idtac.
+  Abort.
+End next_ext2.
